@@ -172,6 +172,20 @@ pub fn build_subject(seed: u64, case: u64, tag: &str) -> Subject {
             (n.mtime_s, n.mtime_ns) = w.clock.next(&mut rng);
             w.spec.insert(format!("/zs{i}"), n);
         }
+        // in every other subject, two more directories below the root with files of their own, so
+        // that a listing restricted to one directory has entries of another one after it
+        if case % 2 == 0 {
+            for d in ["/ya", "/yb"] {
+                let mut n = crate::tree::Node::dir();
+                (n.mtime_s, n.mtime_ns) = w.clock.next(&mut rng);
+                w.spec.insert(d.to_string(), n);
+                for f in ["p", "q"] {
+                    let mut n = crate::tree::Node::file(crate::tree::gen_content(&mut rng, 20 + f.len()));
+                    (n.mtime_s, n.mtime_ns) = w.clock.next(&mut rng);
+                    w.spec.insert(format!("{d}/{f}"), n);
+                }
+            }
+        }
         crate::tree::sync_to_disk(Some(&old), &w.spec, &w.src).expect("sync");
         w.snap = crate::tree::snapshot(&w.src).expect("snapshot");
     }
